@@ -23,12 +23,17 @@ THEOREMS = [P + t for t in (
     'C17_target_canonical', 'C17_stored_target', 'C17_loader_models_agree')]
 
 
+def _hist(case):
+    t = case.split(' ')
+    return t[2] if len(t) == 4 else 'H'
+
+
 def _entries(case):
     t = case.split(' ')
-    if len(t) != 3 or t[2] == '-':
+    if len(t) not in (3, 4) or t[-1] == '-':
         return []
     out = []
-    for e in t[2].split(','):
+    for e in t[-1].split(','):
         n, k, l = e.split(':')
         out.append((n, k, '' if l == '-' else binascii.unhexlify(l).decode('utf-8', 'replace')))
     return out
@@ -50,8 +55,9 @@ def run(ctx):
                        'entry names are clean relative paths; tar hard links (TypeLink, which the loader treats like symlinks) are not generated',
                        'the specification reads link names lexically (path.Clean), as the loader does']
     ctx.rule = ('TIERS: the exhaustive enumeration the property asks for ("every symlink graph on up to 5 named entries x every maximum depth 0..6") is the THOROUGH tier: '
-                '6+64+1000+20736+537824 = 559 630 graphs, each loaded 7 times (depths 0..6) and observed in both views (Stat, Open, ReadDir of every entry), plus 20 000 random graphs and the corpus; '
+                '6+64+1000+20736+537824 = 559 630 graphs, each loaded 7 times (depths 0..6) and observed in both views (Stat, Open, ReadDir of every entry) — the graphs on <=4 names under each of the six config-history modes (130 836 cases), those on 5 names with the mode rotating over the enumeration — plus 20 000 random graphs and the corpus; '
                 'the QUICK tier is a seeded 3 000-graph sample plus the corpus and enumerates nothing exhaustively — an evidence file of tier quick does not claim the enumeration. '
+                'every case also fixes how the image\'s config history is written (H one entry per layer, E valid with empty-layer entries before/between/after so that views are observed on EMPTY chain layers, N none, S short, G one entry too many, X empty entries and a missing one: the last four take initializeChainLayers\' fallback branch) and, for 1 in 12 random cases, that the image is saved to a tarball and loaded with image.FromTarball instead of FromV1Image (FromRemoteName shares that path and needs a registry); the specification does not mention the history: the answers must be the same. '
                 'case = one symlink graph (entries: F file, D dir, M missing, X deleted by layer 1, L symlink, Y symlink deleted by layer 1) observed at depths 0..6 in both views; '
                 'thorough enumerates every graph on 1..5 names with relative and absolute canonical link spellings (6+64+1000+20736+537824 graphs; 5 names use the layout a,b,c,s/d,s/e); '
                 'random cases use up to 9 names in nested directories, 40% long chains, noisy/unclean/outside-root/empty link names. non-trivial = at least two symlink entries; '
@@ -89,7 +95,7 @@ def run(ctx):
         return None
 
     def classify(case, fi, fm):
-        return fm.get('cls', fm.get('_', '?'))
+        return 'hist=%s %s' % (_hist(case), fm.get('cls', fm.get('_', '?')))
 
     keys = ['_'] + ['d%d' % d for d in range(7)]
     if ctx.tier == 'thorough' and not ctx.replay:
